@@ -156,3 +156,28 @@ claim("C20", "typed inventory of asynchronous call sites, path-language rule on 
       "result and is forwarded on every path on which it is non-nil; results are dereferenced only under err==nil (defects F4, F5 repaired in /repo); every "
       "operation has its own time.Now-based deadline or a context that is deadline-bearing at every call site (followed through callers and closures). NOT "
       "decided: gocbcore after Cancel, timing around the deadline. ALSO DECIDED (added after the second round of seeded changes): Ping reports success only when both services answered (exhaustive over err x endpoints); the metadata backends propagate every primitive's error.", "DESIGN.md §3 C20, §4")
+
+# ---- third round of seeded changes: clauses added per property (appended to the level text)
+def also3(pid, text):
+    t, x, r = CLAIMS[pid]
+    CLAIMS[pid] = (t, x + " ALSO DECIDED (added after the third round of seeded changes): " + text, r)
+
+also3("C01", "only keys that START with a reserved prefix are absorbed without an acknowledgement (the filter rule of C14), and every event wrapper is built by the stream-observer handler of its own kind from the event it received - no synthetic seqno-advanced/system event can move the position.")
+also3("C02", "openStream hands Client.OpenStream the loaded position and the observer of the same vBucket unmodified.")
+also3("C03", "the observer's delivery/end switches are written only by Observer.Close/CloseEnd, which are called only from Stream.Close and its helpers (a reopened stream reuses its observer); the catch-up filter of C08 is exact; no event wrapper is built outside the handler of its kind.")
+also3("C04", "a position that moved with dirty=true is marked whatever the mark's previous value and raises the save flag (the rules of C05.R1/R2), so the tracked position is what the next save writes.")
+also3("C05", "a tracked position (sequence number with its snapshot range) is never changed in place after it was settled (the replace-never-mutate rule of C06).")
+also3("C06", "the marker and seqno-advanced handlers install the announced snapshot iff the gate passes and under no other condition (exhaustive; a branch on any other observer state leaves the decidable fragment); the resume request carries the tracked offset unmodified; every position move uses the vBucket id and offset of one event.")
+also3("C07", "a cluster-map change discards every earlier report: reconfigure = generation++, reset, mark-absent, go startObserve(new generation) on every path, and reset installs a fresh table of all-zero entries and re-arms the first-round counter unconditionally.")
+also3("C08", "the position writer never lets the checkpoint fall back during the replay, whatever the branch ids (the guard rule of C04).")
+also3("C09", "the parallel stream close waits for exactly the goroutines it spawns (WaitGroup sized by Count() of the ranged position map).")
+also3("C10", "leader-assigned variant: the follower table is mutated only by an unconditional Store(service.Name, service) in Add and Delete in Remove; the heart-beat queues a follower for removal iff its Ping returned an error; Ping/Register/Rebalance return the retry helper's result, and helpers.Retry reports nil iff an attempt succeeded and otherwise the last attempt's error (exhaustive for 0..4 attempts x 0..5 leading failures).")
+also3("C11", "because Rebalance reads the balancing state before taking its lock, every listener that reaches Stream.Rebalance is subscribed with serialised delivery (SubscribeAsync transactional=true or Subscribe); the delivery switch is tested after the rollback-mitigation wait (no event delivered while closed); the parallel close waits for every close request.")
+also3("C12", "the observer that a reopen reuses has its switches thrown only by Stream.Close; the settled position a reopen resumes from is never changed in place by later markers.")
+also3("C13", "the parallel close waits for exactly the close requests it spawned (WaitGroup sized by Count() of the ranged map, one Done each, Wait before return); snapshot announcements are installed whenever the gate passes, also while the delivery switch is off, so events racing with the close are dropped by the switch instead of tripping the fail-stop membership check; the dirty set is cleared only after and under err==nil of the store call.")
+also3("C14", "nothing but the save flag makes a save write: the backend receives exactly the dirty marks and is called only when the flag is up, so absorbed events cannot cause a checkpoint write.")
+also3("C15", "an unreadable or unparsable checkpoint is an error, never 'no checkpoint'; a transient end is answered by the bounded reopen under no further condition of the stream's state.")
+also3("C16", "the open indicator the collector tests (observers) becomes non-nil only after every stream field the collector reads behind that guard has been assigned by the same lifecycle function; a tracked offset's snapshot range is never changed in place.")
+also3("C17", "the placeholder regular expression (a program constant, analysed with regexp/syntax): literal '${', one capture, literal '}', the capture cannot contain '}' and admits [A-Za-z0-9_] at every position; the int-or-string resolver parses the configured string in base 10.")
+also3("C19", "every wait of a round selects on the Done() of the context handed down unchanged from Start (the one Stop cancels): a derived context with its own expiry would end a failing round silently.")
+also3("C20", "the duration that bounds an operation is a timeout option: no configuration field the module uses as a period (ticker, sleep, timer delay) appears as a deadline, and Ping's context is bounded by HealthCheck.Timeout.")
